@@ -16,7 +16,7 @@ import warnings
 
 import numpy as np
 
-from .. import cases, facts, unictlgen, utilsgen
+from .. import cases, facts, gmctlgen, unictlgen, utilsgen
 from .. import lifecycle as L
 from ..core import REPO
 
@@ -1220,6 +1220,20 @@ def _run(ctx):
              's_stored clause of new_scipy, the validation prefix of fit_gm) for all inputs; C19u_refused_table_leaves_model, '
              'C19u_get_instance_unfitted, C19u_get_instance_replays_constructor, C19u_qualified_name_resolves are stated on the generated functions')
     utilsgen.compile_props(ctx)
+    # third tie: the control skeleton of GaussianMultivariate / Multivariate (Gen_gmctl.v over coq/Lib/PyGM.v); Props/C19_gm.v proves the
+    # generated definitions equal to new_gm / fit_gm / query_gm / to_dict_gm / from_dict_gm / from_dict_multivariate (C19_bridge_gm_*).
+    # Compiled on its own: a failure in C19.v does not hide these theorems and the other way round; the rest of the check runs regardless.
+    statusg = gmctlgen.generate(ctx)
+    for k in gmctlgen.PARTS:
+        ctx.obligation(f'translate:{k}', statusg.get(k, 'not attempted') is None, 'translation', statusg.get(k) or '')
+    ctx.rule('translation: Multivariate.check_fit / log_probability_density / from_dict and GaussianMultivariate.fit (with _validate_input, '
+             '_fit_columns, _get_distribution_for_column, _fit_column, _fit_with_fallback_distribution) / probability_density / '
+             'cumulative_distribution / sample (with _get_normal_samples, conditions=None) / to_dict / from_dict are translated from the AST on '
+             'every run into Gen_gmctl.v (vocabulary coq/Lib/PyGM.v; strict shape check, fail-closed); the C19_bridge_gm_* theorems of '
+             'Props/C19_gm.v prove them equal to Model.Lifecycle (fit_columns, fit_gm, query_gm, to_dict_gm, from_dict_gm, '
+             'from_dict_multivariate) for all states and inputs')
+    ctx.copy_src('Props/C19_gm.v')
+    ctx.compile(['Gen_gmctl.v', 'C19_gm.v'])
     ctx.rule('correspondence: random histories (3..8 events: fit 42% / query 40% (cdf,pdf,ppf,logpdf,sample[,partial]) / to_dict 11% / '
              'get_instance 7%) per object configuration: 8 ScipyModel families (default, seeded; TruncatedGaussian without/with one/both '
              'bounds; GaussianKDE with sample_size 1/5/8/30, bw_method scott/silverman/scalar/invalid, weights), Univariate wrapper '
@@ -1248,6 +1262,10 @@ def _run(ctx):
                     'and GaussianKDE\'s overrides stay hand-written in Model/Lifecycle.v',
                     'tools/vf/utilsgen.py: the py_* vocabulary of Gen_utils.v (prototype kinds, name resolution = rsplit + import_module + getattr over '
                     'the class table of the model, what @store_args leaves on an instance, the table summary with two dtype flags) and the translator',
+                    'tools/vf/gmctlgen.py + coq/Lib/PyGM.v: the g_* / r_* / py_* vocabulary of Gen_gmctl.v (state monad over ginst, try/except, loops '
+                    'with accumulators, attribute access, @random_state, @check_valid_values, the DataFrame / distribution-spec / sample-frame '
+                    'denotations) and the shape-checking translator; <univariate>.fit, _get_correlation, _transform_to_normal and '
+                    'Univariate.from_dict are hooks instantiated with the model\'s fit_u / q_u / o_corr / from_dict_u',
                     'tools/vf/lifecycle.py: recorders at the scipy/numpy boundary, canonicalisation of observations, oracle tables',
                     'scipy/numpy results enter the model as table values (no claim about scipy itself)']
 
